@@ -3,10 +3,19 @@
 (* Character-level maximal-munch tokenizer of "Halt is Defeat" (property   *)
 (* C12), written as a state machine shaped like hidc/lexer:                *)
 (*                                                                         *)
-(*   lex()             hidc/lexer/__init__.py:14-36   -> Init, Step        *)
-(*   Scanner           hidc/lexer/scanner.py:31-96    -> line, col, At     *)
-(*   skip_whitespace   hidc/lexer/readers.py:6-11     -> Skip* actions     *)
-(*   read_*_token      hidc/lexer/readers.py:55-151   -> Read* actions     *)
+(*   lex()             hidc/lexer/__init__.py:14-36   -> InitAt, Step      *)
+(*   SourceCode/Scanner hidc/lexer/scanner.py:5-96    -> pos, cur (the     *)
+(*                     current line), line, col, At, Text, HasNextLine     *)
+(*   skip_whitespace   hidc/lexer/readers.py:6-11     -> Skip* actions,    *)
+(*                     one regex match + linebreak() per step              *)
+(*   read_*_token      hidc/lexer/readers.py:55-151   -> Read* actions,    *)
+(*                     one token (or the lexical error) per step           *)
+(* Variables: the cursor (line, col), the text of the current line, the    *)
+(* phase of lex()'s loop, the number of tokens produced and the event the  *)
+(* last step produced (a token with kind, value and span; end of input;    *)
+(* lexical error; dontcare).  LexerTrace compares these events with the    *)
+(* recording of the real lexer; Lexer.cfg checks the machine's own         *)
+(* properties (TypeOK, ReaderAgrees, SpanExact, CursorForward, Terminates).*)
 (*                                                                         *)
 (* A source text is a sequence of code points (integers).  A token value   *)
 (* is a sequence of small integers (code points of a name, bytes of a      *)
@@ -102,11 +111,24 @@ VARIABLES inp,           \* which input is being lexed (constant along a behavio
 vars == <<inp, pos, cur, line, col, phase, ntok, out>>
 
 -----------------------------------------------------------------------------
-(* L1: SourceCode.from_string cuts the text at LF only.  The machine holds one line at a time. *)
-RECURSIVE LineStop(_, _)           \* 1-based position of the LF ending the line that starts after p
-LineStop(i, q) == IF q > TextLen(i) THEN q ELSE IF TextAt(i, q) = 10 THEN q ELSE LineStop(i, q + 1)
+(* A note on style.  TLC evaluates operator arguments and LET definitions by name, i.e. again at
+   every use; in a recursion that makes the work quadratic or worse (measured: 76 s instead of 4 s
+   for one 1,300-character line).  Let1(x, F) evaluates x once (as the element of a singleton set)
+   and applies F to the value; it is used wherever a computed position, accumulator or reader
+   result is handed on.  Let1(x, LAMBDA v : e) means: LET v == x IN e. *)
+Let1(x, F(_)) == CHOOSE r \in {F(v) : v \in {x}} : TRUE
 
-LineAfter(i, p) == [k \in 1..(LineStop(i, p + 1) - p - 1) |-> TextAt(i, p + k)]
+(* L1: SourceCode.from_string cuts the text at LF only.  The machine holds one line at a time. *)
+
+RECURSIVE LineStop(_, _)           \* 1-based position of the first LF at or after q, or TextLen + 1
+LineStop(i, q) ==
+    IF q > TextLen(i) THEN q
+    ELSE IF TextAt(i, q) = 10 THEN q
+    ELSE Let1(q + 1, LAMBDA x : LineStop(i, x))
+
+(* the line that starts after p code points, as an explicit tuple *)
+LineBetween(i, p, e) == SubSeq([k \in 1..(e - p - 1) |-> TextAt(i, p + k)], 1, e - p - 1)
+LineAfter(i, p) == Let1(<<p, LineStop(i, p + 1)>>, LAMBDA t : LineBetween(i, t[1], t[2]))
 HasNextLine     == pos + Len(cur) < TextLen(inp)       \* an LF follows the current line
 
 (* Scanner primitives on one line L; columns are 0-based *)
@@ -212,15 +234,16 @@ Symbol(L, c) ==
 IdentApplies(L, c) == At(L, c) \in {64, 33} \/ IsIdentStart(At(L, c))
 
 RECURSIVE IdentEnd(_, _)
-IdentEnd(L, c) == IF IsIdentCont(At(L, c)) THEN IdentEnd(L, c + 1) ELSE c
+IdentEnd(L, c) == IF IsIdentCont(At(L, c)) THEN Let1(c + 1, LAMBDA d : IdentEnd(L, d)) ELSE c
+
+IdentWord(L, s, e, flav) ==            \* the word in columns s .. e-1
+    IF NonAscii(At(L, e)) THEN DC                                            \* D1
+    ELSE IF Text(L, s, e) \in Keywords THEN (IF flav = "id" THEN Tok("kw", Text(L, s, e), e) ELSE Err)
+    ELSE Tok(flav, Text(L, s, e), e)
 
 IdentFrom(L, s, flav) ==               \* s = column where the base name must start
     IF ~IsIdentStart(At(L, s)) THEN (IF flav = "id" THEN None ELSE Err)
-    ELSE LET e == IdentEnd(L, s + 1)
-             w == Text(L, s, e)
-         IN  IF NonAscii(At(L, e)) THEN DC                                   \* D1
-             ELSE IF w \in Keywords THEN (IF flav = "id" THEN Tok("kw", w, e) ELSE Err)
-             ELSE Tok(flav, w, e)
+    ELSE Let1(IdentEnd(L, s + 1), LAMBDA e : IdentWord(L, s, e, flav))
 
 IdentOrKeyword(L, c) ==
     IF At(L, c) = 64 THEN IdentFrom(L, c + 1, "you")            \* @
@@ -230,28 +253,30 @@ IdentOrKeyword(L, c) ==
 (* L7: read_int_token.  Values are base-256 little-endian limbs, no trailing zero limb *)
 IntApplies(L, c) == IsDigit(At(L, c))
 
-RECURSIVE MulAdd(_, _, _)
+RECURSIVE MulAdd(_, _, _)              \* V * m + carry, for m <= 16 and carry <= 16
 MulAdd(V, m, carry) ==
-    IF V = << >> THEN (IF carry = 0 THEN << >> ELSE << carry % 256 >> \o MulAdd(<< >>, m, carry \div 256))
-    ELSE LET x == Head(V) * m + carry
-         IN  << x % 256 >> \o MulAdd(Tail(V), m, x \div 256)
+    IF V = << >> THEN (IF carry = 0 THEN << >> ELSE << carry >>)
+    ELSE Let1(<< Head(V) * m + carry, Tail(V) >>,
+              LAMBDA t : << t[1] % 256 >> \o MulAdd(t[2], m, t[1] \div 256))
 
 RECURSIVE DigitsEnd(_, _, _)           \* c = column just past a digit of base b
 DigitsEnd(L, c, b) ==
-    IF IsBaseDigit(At(L, c), b) THEN DigitsEnd(L, c + 1, b)
-    ELSE IF At(L, c) = 95 /\ IsBaseDigit(At(L, c + 1), b) THEN DigitsEnd(L, c + 2, b)
+    IF IsBaseDigit(At(L, c), b) THEN Let1(c + 1, LAMBDA d : DigitsEnd(L, d, b))
+    ELSE IF At(L, c) = 95 /\ IsBaseDigit(At(L, c + 1), b) THEN Let1(c + 2, LAMBDA d : DigitsEnd(L, d, b))
     ELSE c
 
-RECURSIVE IntValue(_, _, _, _, _)
+RECURSIVE IntValue(_, _, _, _, _)      \* digits in columns c .. e-1, acc = value of the digits before c
 IntValue(L, c, e, b, acc) ==
     IF c >= e THEN acc
-    ELSE IF At(L, c) = 95 THEN IntValue(L, c + 1, e, b, acc)
-    ELSE IntValue(L, c + 1, e, b, MulAdd(acc, b, DigitVal(At(L, c))))
+    ELSE IF At(L, c) = 95 THEN Let1(c + 1, LAMBDA d : IntValue(L, d, e, b, acc))
+    ELSE Let1(<< c + 1, MulAdd(acc, b, DigitVal(At(L, c))) >>, LAMBDA t : IntValue(L, t[1], e, b, t[2]))
+
+IntDigits(L, s, e, b) ==               \* the digit string in columns s .. e-1
+    IF NonAscii(At(L, e)) \/ (At(L, e) = 95 /\ NonAscii(At(L, e + 1))) THEN DC    \* D1
+    ELSE Tok("int", IntValue(L, s, e, b, << >>), e)
 
 IntFrom(L, s, b) ==                    \* s = column of the first digit
-    LET e == DigitsEnd(L, s + 1, b)
-    IN  IF NonAscii(At(L, e)) \/ (At(L, e) = 95 /\ NonAscii(At(L, e + 1))) THEN DC    \* D1
-        ELSE Tok("int", IntValue(L, s, e, b, << >>), e)
+    Let1(DigitsEnd(L, s + 1, b), LAMBDA e : IntDigits(L, s, e, b))
 
 IntLit(L, c) ==
     LET c0 == At(L, c)
@@ -270,14 +295,20 @@ IntLit(L, c) ==
 EscOk(bytes, e) == [r |-> "ok", bytes |-> bytes, e |-> e]
 
 RECURSIVE HexRunEnd(_, _)
-HexRunEnd(L, c) == IF IsHexDigit(At(L, c)) THEN HexRunEnd(L, c + 1) ELSE c
+HexRunEnd(L, c) == IF IsHexDigit(At(L, c)) THEN Let1(c + 1, LAMBDA d : HexRunEnd(L, d)) ELSE c
 
 CpCap == 1114112                       \* 0x110000; everything from here up is invalid
 RECURSIVE CodePoint(_, _, _, _)        \* saturating, so arbitrarily long digit strings stay in range
 CodePoint(L, c, e, acc) ==
     IF c >= e THEN acc
-    ELSE LET x == acc * 16 + DigitVal(At(L, c))
-         IN  CodePoint(L, c + 1, e, IF x > CpCap THEN CpCap ELSE x)
+    ELSE Let1(<< c + 1, acc * 16 + DigitVal(At(L, c)) >>,
+              LAMBDA t : CodePoint(L, t[1], e, IF t[2] > CpCap THEN CpCap ELSE t[2]))
+
+UnicodeEscape(L, c, e) ==              \* \u{ then hex digits up to column e
+    IF NonAscii(At(L, e)) THEN DC                                                        \* D1
+    ELSE IF e = c + 3 \/ At(L, e) # 125 THEN Err
+    ELSE Let1(CodePoint(L, c + 3, e, 0),
+              LAMBDA cp : IF cp >= CpCap \/ IsSurrogate(cp) THEN Err ELSE EscOk(Utf8(cp), e + 1))
 
 Escape(L, c) ==
     LET n == At(L, c + 1)
@@ -290,28 +321,23 @@ Escape(L, c) ==
                 ELSE Err
         ELSE IF n = 117 THEN                                    \* \u{H+}
             IF At(L, c + 2) # 123 THEN Err
-            ELSE LET e == HexRunEnd(L, c + 3)
-                 IN  IF NonAscii(At(L, e)) THEN DC                                        \* D1
-                     ELSE IF e = c + 3 \/ At(L, e) # 125 THEN Err
-                     ELSE LET cp == CodePoint(L, c + 3, e, 0)
-                          IN  IF cp >= CpCap \/ IsSurrogate(cp) THEN Err
-                              ELSE EscOk(Utf8(cp), e + 1)
+            ELSE Let1(HexRunEnd(L, c + 3), LAMBDA e : UnicodeEscape(L, c, e))
         ELSE IF n \in SimpleEscChars THEN EscOk(<< SimpleEscVal(n) >>, c + 2)
         ELSE Err                                                \* includes "\" at end of line
 
 (* L8: read_string_token; c = column just past the opening quote or past what was read so far *)
 RECURSIVE StringBody(_, _, _)
-StringBody(L, c, acc) ==
-    LET ch == At(L, c)
-    IN  IF ch = EOL THEN Err                                    \* unclosed
-        ELSE IF ch = 34 THEN Tok("str", acc, c + 1)
-        ELSE IF ch = 92 THEN
-            LET esc == Escape(L, c)
-            IN  IF esc.r = "ok" THEN StringBody(L, esc.e, acc \o esc.bytes) ELSE esc
-        ELSE IF IsSurrogate(ch) THEN DC                                                  \* D2
-        ELSE StringBody(L, c + 1, acc \o Utf8(ch))
+StringAfterEscape(L, esc, acc) ==
+    IF esc.r = "ok" THEN Let1(acc \o esc.bytes, LAMBDA a : StringBody(L, esc.e, a)) ELSE esc
 
-StringLit(L, c) == IF At(L, c) = 34 THEN StringBody(L, c + 1, << >>) ELSE None
+StringBody(L, c, acc) ==
+    IF At(L, c) = EOL THEN Err                                  \* unclosed
+    ELSE IF At(L, c) = 34 THEN Tok("str", acc, c + 1)
+    ELSE IF At(L, c) = 92 THEN Let1(Escape(L, c), LAMBDA esc : StringAfterEscape(L, esc, acc))
+    ELSE IF IsSurrogate(At(L, c)) THEN DC                                                \* D2
+    ELSE Let1(<< c + 1, acc \o Utf8(At(L, c)) >>, LAMBDA t : StringBody(L, t[1], t[2]))
+
+StringLit(L, c) == IF At(L, c) = 34 THEN Let1(c + 1, LAMBDA d : StringBody(L, d, << >>)) ELSE None
 
 (* L9: read_char_token *)
 CharClose(L, bytes, e) ==
@@ -319,13 +345,13 @@ CharClose(L, bytes, e) ==
     ELSE IF Len(bytes) # 1 THEN Err
     ELSE Tok("chr", bytes, e + 1)
 
+CharAfterEscape(L, esc) == IF esc.r = "ok" THEN CharClose(L, esc.bytes, esc.e) ELSE esc
+
 CharLit(L, c) ==
     IF At(L, c) # 39 THEN None
     ELSE LET n == At(L, c + 1)
          IN  IF n = 39 \/ n = EOL THEN Err
-             ELSE IF n = 92 THEN
-                 LET esc == Escape(L, c + 1)
-                 IN  IF esc.r = "ok" THEN CharClose(L, esc.bytes, esc.e) ELSE esc
+             ELSE IF n = 92 THEN Let1(Escape(L, c + 1), LAMBDA esc : CharAfterEscape(L, esc))
              ELSE IF IsSurrogate(n) THEN DC                                              \* D2
              ELSE CharClose(L, Utf8(n), c + 2)
 
@@ -341,11 +367,10 @@ Reader(L, c) ==
 
 (* L2: one match of the `ignore` pattern from column c *)
 RECURSIVE SpaceEnd(_, _)
-SpaceEnd(L, c) == IF IsSpace(At(L, c)) THEN SpaceEnd(L, c + 1) ELSE c
+SpaceEnd(L, c) == IF IsSpace(At(L, c)) THEN Let1(c + 1, LAMBDA d : SpaceEnd(L, d)) ELSE c
 
-IgnoreEnd(L, c) ==
-    LET s == SpaceEnd(L, c)
-    IN  IF At(L, s) = 47 /\ At(L, s + 1) = 47 THEN Len(L) ELSE s
+IgnoreFrom(L, s) == IF At(L, s) = 47 /\ At(L, s + 1) = 47 THEN Len(L) ELSE s
+IgnoreEnd(L, c)  == Let1(SpaceEnd(L, c), LAMBDA s : IgnoreFrom(L, s))
 
 -----------------------------------------------------------------------------
 (* the machine *)
@@ -383,8 +408,8 @@ SkipLinebreak ==
 (* skip_whitespace ends in front of a token *)
 SkipToToken ==
     /\ phase = "skip"
-    /\ LET s == IgnoreEnd(cur, col)
-       IN  /\ s < Len(cur)
+    /\ \E s \in {IgnoreEnd(cur, col)} :
+           /\ s < Len(cur)
            /\ ~Murky(At(cur, s))
            /\ col' = s
     /\ phase' = "read"
@@ -394,8 +419,7 @@ SkipToToken ==
 (* D1: the next significant character is outside the documented language *)
 SkipToMurky ==
     /\ phase = "skip"
-    /\ LET s == IgnoreEnd(cur, col)
-       IN  s < Len(cur) /\ Murky(At(cur, s))
+    /\ \E s \in {IgnoreEnd(cur, col)} : s < Len(cur) /\ Murky(At(cur, s))
     /\ Stop(DcOut)
 
 (* `if not scan: return` *)
@@ -419,27 +443,27 @@ Emit(res) ==
 ReadSymbol ==
     /\ phase = "read"
     /\ Reader(cur, col) = "symbol"
-    /\ Emit(Symbol(cur, col))
+    /\ \E res \in {Symbol(cur, col)} : Emit(res)
 
 ReadIdentOrKeyword ==
     /\ phase = "read"
     /\ Reader(cur, col) = "ident"
-    /\ Emit(IdentOrKeyword(cur, col))
+    /\ \E res \in {IdentOrKeyword(cur, col)} : Emit(res)
 
 ReadInt ==
     /\ phase = "read"
     /\ Reader(cur, col) = "int"
-    /\ Emit(IntLit(cur, col))
+    /\ \E res \in {IntLit(cur, col)} : Emit(res)
 
 ReadString ==
     /\ phase = "read"
     /\ Reader(cur, col) = "string"
-    /\ Emit(StringLit(cur, col))
+    /\ \E res \in {StringLit(cur, col)} : Emit(res)
 
 ReadChar ==
     /\ phase = "read"
     /\ Reader(cur, col) = "char"
-    /\ Emit(CharLit(cur, col))
+    /\ \E res \in {CharLit(cur, col)} : Emit(res)
 
 (* no reader applies: LexerError.unhelpful *)
 NoReader ==
@@ -487,7 +511,7 @@ SpanExact ==
         /\ (out.k \in {"you", "defeat"}) => (out.v = Text(cur, out.sc + 1, out.ec))
 
 (* the cursor only moves forward: every behaviour is finite *)
-cursorForward ==
+CursorForward ==
     [][ \/ line' > line
         \/ (line' = line /\ col' >= col) ]_vars
 
